@@ -204,6 +204,14 @@ def c09_a(ctx: Ctx):
         else:
             out.append(ctx.viol(R, fi2, c, f"the state point reader also opens {txt[:60]}: a parked backup / temporary is accepted as the job's state point, so a job whose state point file is "
                                 "missing (crash between the two renames of a re-key) validates and check() stays silent", construct=k))
+    # 2b''. KeyError ("no such job") only when the job directory does not exist; an existing directory with an unreadable file is corruption
+    for r in [n for n in body_nodes(fi2) if isinstance(n, ast.Raise) and n.exc is not None and (dotted(n.exc.func if isinstance(n.exc, ast.Call) else n.exc) or "") == "KeyError"]:
+        facts = common.facts_at(ctx, fi2, r, "nx")
+        if any((not pol) and "os.path.isdir(" in t for (t, pol) in facts):
+            out.append(ctx.ok(R, fi2, r, "KeyError only when the job directory does not exist", construct=WSREAD + "|keyerror-guard"))
+        else:
+            out.append(ctx.viol(R, fi2, r, f"KeyError ('no such job') is raised without having found the job directory absent (facts: {sorted(facts)}): a directory that exists but lacks its state point "
+                                "file - the state left by a crash during init or between the renames of a re-key - is reported as 'not there' instead of as corrupted", construct=WSREAD + "|keyerror-guard"))
     # 2c. registration overwrites: a validated state point replaces whatever an unvalidated look-up left in the cache
     reg = ctx.fn("signac.project:Project._register")
     st = [n for n in body_nodes(reg) if isinstance(n, ast.Assign) and any(isinstance(t, ast.Subscript) and canon(t.value) == "self._sp_cache" for t in n.targets)]
@@ -346,6 +354,11 @@ def c09_b(ctx: Ctx):
         if not hs:
             out.append(ctx.viol(R, fi, tr, "no handler for JobsCorruptedError around the per-job read"))
             continue
+        for h2 in tr.handlers:
+            t2 = ex.handler_type_names(fi, h2)
+            if h2 is not hs[0] and common.reraises_on_all_paths(ctx, fi, h2) is not None:
+                out.append(ctx.viol(R, fi, h2, f"check() also swallows {t2} from the per-job read: a job directory whose state point cannot be looked up (e.g. directory without state point file) is "
+                                    "skipped silently instead of being reported", construct=CHECK + "|extra-handler"))
         h = hs[0]
         bad = [x for st in h.body for x in walk_no_nested(st) if isinstance(x, (ast.Break, ast.Return, ast.Raise))]
         if bad:
